@@ -130,7 +130,7 @@ func flagRate(prop, flag string) int {
 	base := map[string]int{"vesting": 15, "extrafee": 15, "nest": 30, "overflow": 10, "longdur": 8, "huge": 10, "denomchange": 4, "minaccepts63": 3, "addr255": 8, "idwrap": 0, "bigfee": 5, "stakebond": 15, "dupsigners": 5, "granter": 20}[flag]
 	boost := map[string][]string{
 		"C05": {"vesting", "granter", "extrafee"}, "C04": {"granter", "vesting"}, "C06": {"extrafee", "nest", "bigfee", "overflow"}, "C08": {"overflow", "nest"},
-		"C11": {"longdur", "huge"}, "C12": {"huge", "longdur"}, "C14": {"denomchange", "huge", "vesting"}, "C16": {"minaccepts63", "denomchange", "dupsigners"},
+		"C11": {"longdur", "huge"}, "C12": {"huge", "longdur"}, "C14": {"denomchange", "huge", "vesting"}, "C16": {"minaccepts63", "dupsigners"},
 		"C18": {"addr255"}, "C20": {"addr255"}, "C02": {"stakebond", "nest"}, "C13": {"nest"}, "C15": {"overflow", "addr255"},
 	}
 	for _, f := range boost[prop] {
@@ -140,7 +140,7 @@ func flagRate(prop, flag string) int {
 	}
 	// flags whose effect is a (known) chain halt or a corrupted parameter set belong to the
 	// properties that are about exactly that; elsewhere they would only end runs early
-	if flag == "denomchange" && prop != "C14" && prop != "C16" {
+	if flag == "denomchange" && prop != "C14" {
 		return 0
 	}
 	if flag == "minaccepts63" && prop != "C16" && prop != "C03" {
